@@ -205,7 +205,7 @@ PROPERTIES = {
     # of T-MOR only the clauses about the call of the topological sort concern C18 (how its output is used is C17)
     "C18": {"only_keys": {"T-MOR": ["T-MOR:recompute:toposort-"]}, "rules": ["M-SYM", "M-KAHN", "T-MOR"], "level": "other"},
     # termination: of the rules about canonicalize / move_new_to_old only the clauses about clearing what is_dirty reads
-    "C06": {"only_keys": {"T-CANON": ["T-CANON:canonicalize:uprooted-", "T-CANON:canonicalize:type-not-drained", "T-CANON:canonicalize:drained-not-processed", "T-CANON:canonicalize:unrecognised", "T-CANON:other:uprooted-shrunk"], "T-MOVE": ["T-MOVE:move:not-cleared", "T-MOVE:move:flag", "T-MOVE:move:clear-", "T-MOVE:move:unrecognised"]}, "rules": ["T-ALLOC", "M-FUNCDOM", "T-DIRTY", "T-MOVE", "T-CANON", "S-PRUNE"], "level": "other"},
+    "C06": {"only_keys": {"T-CANON": ["T-CANON:canonicalize:uprooted-", "T-CANON:canonicalize:type-not-drained", "T-CANON:canonicalize:drained-not-processed", "T-CANON:canonicalize:unrecognised", "T-CANON:other:uprooted-shrunk"], "T-MOVE": ["T-MOVE:move:not-cleared", "T-MOVE:move:flag", "T-MOVE:move:clear-", "T-MOVE:move:unrecognised"]}, "rules": ["T-ALLOC", "M-FUNCDOM", "T-DIRTY", "T-MOVE", "T-CANON", "S-PRUNE", "S-SIB", "S-LEAF", "S-SET"], "level": "other"},
     "C09": {"rules": ["T-TYPECHECK", "T-ENV", "T-X", "T-DELTA"], "level": "translation_validation"},
     "C11": {"rules": ["M-PANIC", "M-LINES", "M-LOCS"], "level": "other"},
     "C12": {"rules": ["M-DIGEST"], "level": "other"},
